@@ -18,6 +18,7 @@ import (
 
 	mqtt "github.com/mochi-mqtt/server/v2"
 	"github.com/mochi-mqtt/server/v2/hooks/auth"
+	"github.com/mochi-mqtt/server/v2/packets"
 
 	"verifharness/refcodec"
 )
@@ -97,7 +98,7 @@ func brokerFrames(stack string) []string {
 
 func newStressServer() *mqtt.Server {
 	caps := mqtt.NewDefaultServerCapabilities()
-	srv := mqtt.New(&mqtt.Options{Capabilities: caps, Logger: slog.New(slog.NewTextHandler(nullWriter{}, &slog.HandlerOptions{Level: slog.LevelError + 8}))})
+	srv := mqtt.New(&mqtt.Options{Capabilities: caps, InlineClient: true, Logger: slog.New(slog.NewTextHandler(nullWriter{}, &slog.HandlerOptions{Level: slog.LevelError + 8}))})
 	_ = srv.AddHook(new(auth.AllowHook), nil)
 	return srv
 }
@@ -110,6 +111,11 @@ func RunLockStress(seconds int, seed int64) StressResult {
 
 	// ---- scenario 1: concurrent activity with a watchdog
 	srv := newStressServer()
+	// an inline subscription whose handler publishes again (the embedding application reacting to a message): the
+	// broker's fan-out is re-entered from inside a fan-out
+	_ = srv.Subscribe("s/a", 1, func(cl *mqtt.Client, sub packets.Subscription, pk packets.Packet) {
+		_ = srv.Publish("echo/a", pk.Payload, false, 0)
+	})
 	var stop atomic.Bool
 	var wg sync.WaitGroup
 	topics := []string{"s/a", "s/b", "s/a/c"}
